@@ -55,19 +55,6 @@ _HANDLER_TRIES = ("        try:\n"
 
 VARIANTS = [
     # ------------------------------------------------------------------ R1
-    {"name": "R1 hook re-raised unconditionally", "file": ADDONS, "expect": "C07.R1",
-     "old": _HOOK_TAIL, "new": _HOOK_TAIL.replace("            if not cls._SWALLOW_ADDON_EXCEPTIONS:\n                raise\n",
-                                                  "            raise\n")},
-    {"name": "R1 hook called after the try", "file": ADDONS, "expect": "C07.R1",
-     "old": _HOOK_TAIL,
-     "new": ("            pass\n"
-             "        except:\n"
-             "            logging.exception(\"Exploded in %r's %s hook\" % (addon, hook_name))\n"
-             "            if not cls._SWALLOW_ADDON_EXCEPTIONS:\n"
-             "                raise\n"
-             "        return hook_func(*args, **kwargs)\n")},
-    {"name": "R1 failing hook claims the message", "file": ADDONS, "expect": "C07.R1",
-     "old": _HOOK_TAIL, "new": _HOOK_TAIL + "            return True\n"},
     {"name": "R1 entry point calls hooks directly", "file": ADDONS, "expect": "C07.R1",
      "old": '            return cls._call_all_addon_hooks("handle_session_init", session)\n',
      "new": ('            for addon in cls._get_all_addon_objects():\n'
@@ -107,14 +94,8 @@ VARIANTS = [
             "            return cls._call_all_addon_hooks(\"handle_eq_event\"",
      "new": "        cls._reload_addons(raise_exceptions=False)\n        with addon_ctx.push(session, region):\n"
             "            return cls._call_all_addon_hooks(\"handle_eq_event\""},
-    {"name": "P R1 bare except -> except BaseException", "file": ADDONS, "expect": "silent",
-     "old": _HOOK_TAIL, "new": _HOOK_TAIL.replace("        except:\n", "        except BaseException:\n")},
     {"name": "P R1 rename hook_func local", "expect": "silent",
      "edits": [{"file": ADDONS, "old": "hook_func", "new": "hook_callable", "all": True}]},
-    {"name": "P R1 nested-if form of the swallow test", "file": ADDONS, "expect": "silent",
-     "old": _HOOK_TAIL,
-     "new": _HOOK_TAIL.replace("            if not cls._SWALLOW_ADDON_EXCEPTIONS:\n                raise\n",
-                               "            if cls._SWALLOW_ADDON_EXCEPTIONS:\n                return None\n            raise\n")},
     # ------------------------------------------------------------------ R2
     {"name": "R2 predicate outside the try again (D5)", "file": EVENTS, "expect": "C07.R2",
      "old": _PRED_TRY, "new": "            if predicate and not predicate(args):\n                continue\n"},
@@ -186,12 +167,6 @@ VARIANTS = [
     {"name": "R3 finalized written by Message.to_dict", "file": MSG, "expect": "C07.R3",
      "old": "        self.ensure_parsed()\n        base_repr = {'message': self.name, 'body': {}}\n",
      "new": "        self.ensure_parsed()\n        self.finalized = True\n        base_repr = {'message': self.name, 'body': {}}\n"},
-    {"name": "R3 drop finalized only after the acks went out (seed 1)", "file": PCIRC, "expect": "C07.R3",
-     "edits": [{"file": PCIRC, "old": "        message.dropped = True\n        message.finalized = True\n",
-                "new": "        message.dropped = True\n"},
-               {"file": PCIRC, "old": "            self.send_acks(effective_acks, message.direction, packet_id=message.packet_id)\n",
-                "new": "            self.send_acks(effective_acks, message.direction, packet_id=message.packet_id)\n"
-                       "        message.finalized = True\n"}]},
     {"name": "R3 take() queues a finalized original", "file": MSG, "expect": "C07.R3",
      "old": "        if not self.finalized:\n            self.queued = True\n", "new": "        self.queued = True\n"},
     {"name": "R3 take() un-finalizes the original", "file": MSG, "expect": "C07.R3",
@@ -222,11 +197,6 @@ VARIANTS = [
     {"name": "R4 claimed packet still parsed and forwarded", "file": LLUDP, "expect": "C07.R4",
      "old": "                                              self.session, region):\n            return\n",
      "new": "                                              self.session, region):\n            LOG.debug('claimed')\n"},
-    {"name": "R4 queued original not dropped", "file": LLUDP, "expect": "C07.R4",
-     "old": "        if message.queued:\n            region.circuit.drop_message(message)\n", "new": ""},
-    {"name": "R4 unconditional drop", "file": LLUDP, "expect": "C07.R4",
-     "old": "        if message.queued:\n            region.circuit.drop_message(message)\n",
-     "new": "        region.circuit.drop_message(message)\n"},
     {"name": "P R4 tail extracted into _forward()", "file": LLUDP, "expect": "silent",
      "old": "        if not message.finalized:\n            region.circuit.send(message)\n",
      "new": ("        self._forward(message, region)\n\n"
@@ -344,27 +314,6 @@ VARIANTS = [
      "old": "        return os.stat(path).st_mtime\n    except:\n        return None\n",
      "new": "        return os.stat(path).st_mtime\n    except OSError:\n        return None\n"},
     # ------------------------------------------------------------------ R9
-    {"name": "R9 command message dropped only after the command dispatch succeeded", "file": ADDONS, "expect": "C07.R9",
-     "old": ("COMMAND_CHANNEL:\n                region.circuit.drop_message(message)\n"
-             "                with addon_ctx.push(session, region):\n"
-             "                    try:\n"
-             "                        cls._handle_command(session, region, message[\"ChatData\"][\"Message\"])\n"),
-     "new": ("COMMAND_CHANNEL:\n                with addon_ctx.push(session, region):\n"
-             "                    try:\n"
-             "                        cls._handle_command(session, region, message[\"ChatData\"][\"Message\"])\n"
-             "                        region.circuit.drop_message(message)\n")},
-    {"name": "R9 command message claimed without being dropped", "file": ADDONS, "expect": "C07.R9",
-     "old": ("COMMAND_CHANNEL:\n                region.circuit.drop_message(message)\n"
-             "                with addon_ctx.push(session, region):\n"),
-     "new": "COMMAND_CHANNEL:\n                with addon_ctx.push(session, region):\n"},
-    {"name": "P R9 command message dropped in a finally around the dispatch", "file": ADDONS, "expect": "silent",
-     "old": ("COMMAND_CHANNEL:\n                region.circuit.drop_message(message)\n"
-             "                with addon_ctx.push(session, region):\n"),
-     "new": ("COMMAND_CHANNEL:\n                try:\n"
-             "                    region.circuit.drop_message(message)\n"
-             "                finally:\n"
-             "                    pass\n"
-             "                with addon_ctx.push(session, region):\n")},
     {"name": "X empty RLV message counted as handled again (now dropped and acked cleanly; whether an empty command "
              "list is 'handled' is value-level)", "file": ADDONS, "expect": "miss",
      "old": "                all_cmds_handled = bool(commands)\n", "new": "                all_cmds_handled = True\n"},
@@ -471,9 +420,19 @@ VARIANTS = [
     {"name": "R3 drop finalized only after the acks went out [post-audit text]", "expect": "C07.R3",
      "edits": [{"file": PCIRC, "old": "packet_id)\n        message.dropped = True\n        message.finalized = True\n",
                 "new": "packet_id)\n        message.dropped = True\n"},
-               {"file": PCIRC, "old": "            self.send_acks(effective_acks, message.direction, packet_id=message.packet_id)\n",
-                "new": "            self.send_acks(effective_acks, message.direction, packet_id=message.packet_id)\n"
+               {"file": PCIRC, "old": "            self.send_acks(effective_acks, message.direction, packet_id=wire_id)\n",
+                "new": "            self.send_acks(effective_acks, message.direction, packet_id=wire_id)\n"
                        "        message.finalized = True\n"}]},
+    {"name": "P R1 nested-if form of the swallow test [post-audit text]", "file": ADDONS, "expect": "silent",
+     "old": _HOOK_TAIL_FIXED,
+     "new": _HOOK_TAIL_FIXED.replace("            if not cls._SWALLOW_ADDON_EXCEPTIONS:\n                raise\n",
+                                     "            if cls._SWALLOW_ADDON_EXCEPTIONS:\n                return None\n            raise\n")},
+    {"name": "P R9 command message dropped in a finally around the dispatch [post-audit text]", "file": ADDONS, "expect": "silent",
+     "old": ("                if not message.finalized:\n                    region.circuit.drop_message(message)\n"
+             "                with addon_ctx.push(session, region):\n"),
+     "new": ("                try:\n                    pass\n                finally:\n"
+             "                    if not message.finalized:\n                        region.circuit.drop_message(message)\n"
+             "                with addon_ctx.push(session, region):\n")},
     {"name": "R4 queued original not dropped [post-audit text]", "file": LLUDP, "expect": "C07.R4",
      "old": "        if message.queued and not message.finalized:\n            region.circuit.drop_message(message)\n", "new": ""},
     {"name": "R4 unconditional drop [post-audit text]", "file": LLUDP, "expect": "C07.R4",
@@ -497,9 +456,6 @@ VARIANTS = [
              "                with addon_ctx.push(session, region):\n"),
      "new": "                with addon_ctx.push(session, region):\n"},
     # ------------------------------------------------------------------ documented limits
-    {"name": "R4 queued original dropped only when reliable", "file": LLUDP, "expect": "C07.R4",
-     "old": "        if message.queued:\n            region.circuit.drop_message(message)\n",
-     "new": "        if message.queued and message.reliable:\n            region.circuit.drop_message(message)\n"},
     {"name": "R7 only `is True` claims (truthy non-bool results ignored)", "file": ADDONS, "expect": "C07.R7",
      "old": ("            ret = cls._try_call_hook(addon, hook_name, *args, call_async=call_async, **kwargs)\n"
              "            if ret:\n                return ret\n"),
